@@ -15,6 +15,7 @@ import FordModel.Lemmas.Relurl
 import FordModel.Lemmas.Assets
 import FordModel.Lemmas.Footnotes
 import FordModel.Lemmas.Memo
+import FordModel.Lemmas.PageName
 import FordModel.Generated.C09
 namespace Ford.C09
 open Ford Ford.Path Ford.Nav Ford.Url Ford.StrLink Ford.ReadMore Ford.Relurl Ford.Assets Ford.Generated.C09
@@ -416,7 +417,7 @@ theorem page_file_link_resolves (p : Assets.PageNode) (hi : p.isIndex = true) (b
 theorem page_copy_index_only_witness :
     let p : Assets.PageNode := ⟨[['g', 'u', 'i', 'd', 'e']], ['t', 'u', 't'], [(['f', 'i', 'g', 's'], [[['p', '.', 'p', 'n', 'g']]])], []⟩
     resolve ([['o', 'u', 't']] ++ pageDirOf p) [['f', 'i', 'g', 's'], ['p', '.', 'p', 'n', 'g']] ∉
-      (pageWrites ⟨.indexOnly, .always⟩ p).map ([['o', 'u', 't']] ++ ·) := by
+      (pageWrites ⟨.indexOnly, .always, ⟨.withSuffix, .withSuffix, .withSuffix⟩⟩ p).map ([['o', 'u', 't']] ++ ·) := by
   decide
 
 /-! ## round 5: state that outlives one page / one text — the Markdown converter, a cache in front of `relurl` -/
@@ -505,5 +506,67 @@ example :
        ⟨"FortranSourceFile".toList, "sourcefile".toList, "a.f90".toList, true, false⟩]
       = some ⟨"type".toList, "t".toList, some "variable-x".toList⟩ := by
   decide +kernel
+
+/-! ## round 6: what a static page is called - by the links to it, by the writer, by the search index -/
+
+/-- Generic form, for any naming tables whose three places agree (`PageName.tablesOk`): the link that the `relurl`
+    filter leaves for `PageNode.url` of the page `<loc>/<stem>.md` on a page lying in **any** directory `dir` of the
+    output tree (front page, entity pages, list pages, static pages nested arbitrarily deep), in a tree at any root
+    `base`, resolves to a file that the `writeout` of that page creates - whatever the stem looks like. -/
+theorem page_link_sound (T : Assets.PageTables) (hT : PageName.tablesOk T.names = true)
+    (p : Assets.PageNode) (base dir : List Seg) (hb : Normal base) (hd : Normal dir) (hl : Normal p.loc) :
+    resolve (base ++ dir) (PageName.linkTo T.names base dir p.loc p.stem) ∈ (pageWrites T p).map (base ++ ·) := by
+  rw [PageName.linkTo_resolves T.names hT base dir p.loc p.stem hb hd hl]
+  exact List.mem_map.2 ⟨_, by simp [pageWrites], rfl⟩
+
+/-- Clause "resolves to a file that exists in the output directory ... from every page depth (... nested static
+    pages)" for the links FORD itself writes to static pages (side-bar tree and bread crumbs of `info_page.html`,
+    the navigation bar entry of `base.html`): over the namings regenerated by probing the real `PageNode` and
+    `PagetreePage` objects, for **every** page of the tree - any location, any stem, dots included (`release-1.2.md`) -
+    seen from every directory and under every root. -/
+theorem page_link_names_written_file (p : Assets.PageNode) (base dir : List Seg)
+    (hb : Normal base) (hd : Normal dir) (hl : Normal p.loc) :
+    resolve (base ++ dir) (PageName.linkTo pageTables.names base dir p.loc p.stem) ∈
+      (pageWrites pageTables p).map (base ++ ·) :=
+  page_link_sound pageTables (by decide) p base dir hb hd hl
+
+/-- Clause "is relative ... so the output can be moved": that link does not depend on where the tree lives. -/
+theorem page_link_relocatable (p : Assets.PageNode) (base base' dir : List Seg) :
+    PageName.linkTo pageTables.names base dir p.loc p.stem = PageName.linkTo pageTables.names base' dir p.loc p.stem := by
+  unfold PageName.linkTo
+  rw [relpath_prefix, relpath_prefix]
+
+/-- Clause "the search index": the `url` of the page's entry in `search_database.json` (`PagetreePage.loc`), which
+    `search.html` resolves against the output root, names the file written for the page. -/
+theorem page_search_url_names_written_file (p : Assets.PageNode) (base : List Seg)
+    (hb : Normal base) (hl : Normal p.loc) :
+    resolve base (PageName.searchPath pageTables.names p.loc p.stem) ∈ (pageWrites pageTables p).map (base ++ ·) := by
+  rw [PageName.searchPath_resolves pageTables.names (by decide) base p.loc p.stem hb hl]
+  exact List.mem_map.2 ⟨_, by simp [pageWrites], rfl⟩
+
+/-- Why no project without a dot in a page's file name can tell the namings apart: on every stem without a dot
+    `with_suffix(".html")` and `<stem>.html` are the same name. -/
+theorem page_namings_agree_on_plain_stems (n m : PageName.Naming) (stem : Seg) (h : '.' ∉ stem) :
+    n.name stem = m.name stem :=
+  PageName.name_plain n m stem h
+
+/-- Why the three places must agree: with the writer changed to `<stem>.html` and the links left at
+    `with_suffix(".html")`, the page `release-1.2.md` is written to `page/release-1.2.html` while the side bar of
+    `page/index.html` links `release-1.html`, which nothing writes. -/
+theorem page_name_mixed_witness :
+    let T : Assets.PageTables := ⟨.always, .always, ⟨.withSuffix, .appendHtml, .appendHtml⟩⟩
+    let p : Assets.PageNode := ⟨[], "release-1.2".toList, [], []⟩
+    PageName.tablesOk T.names = false ∧
+    PageName.linkTo T.names [['o']] [['p', 'a', 'g', 'e']] p.loc p.stem = ["release-1.html".toList] ∧
+    resolve ([['o']] ++ [['p', 'a', 'g', 'e']]) (PageName.linkTo T.names [['o']] [['p', 'a', 'g', 'e']] p.loc p.stem) ∉
+      (pageWrites T p).map ([['o']] ++ ·) := by
+  decide
+
+example : PageName.withSuffixHtml "release-1.2".toList = "release-1.html".toList := by decide
+example : PageName.withSuffixHtml "x..y".toList = "x..html".toList := by decide
+example : PageName.withSuffixHtml "a.".toList = "a..html".toList := by decide
+example : PageName.withSuffixHtml ".a".toList = ".a.html".toList := by decide
+example : PageName.linkTo pageTables.names [['o']] [['p', 'a', 'g', 'e'], ['s', 'u', 'b']] [['v', '1', '.', '0']] "a.b.c".toList
+    = [up, "v1.0".toList, "a.b.html".toList] := by decide
 
 end Ford.C09
